@@ -358,8 +358,10 @@ def _check_step(res, case, law, fns, k, H, st_old, dt, st_new, tag, info, acc):
     tolY = (ref.TOL_SOLVER + 1e-9) * Y0 + 200 * ref.EPS * 2 * mu * (1.0 + float(ref.fro(tq["Ee"]))) * condp
     # resolution of the state: one float spacing of eqps changes the residual by (3 mu + Y') * ulp(eqps); when the yield
     # strain is tiny and eqps large this exceeds the solver tolerance and no representable eqps can do better
-    res_round = (3 * mu + float(slope)) * float(onp.spacing(max(e_new, 1e-300)))
-    tolY += res_round + 16 * ref.EPS * (abs(mises_state) + abs(Y_hi))      # + rounding of the compared stresses themselves (Y >> Y0 after strong hardening)
+    # (4 spacings: the root finder stops inside a bracket that has collapsed to adjacent floats, and evaluating the residual
+    # there carries a few ulps of its own; the thorough tier reached 1.16 of the one-spacing bound at eqps ~ 10..30)
+    res_round = 4 * (3 * mu + float(slope)) * float(onp.spacing(max(e_new, 1e-300)))
+    tolY += res_round + 64 * ref.EPS * (abs(mises_state) + abs(Y_hi))      # + rounding of the compared stresses themselves (Y >> Y0 after strong hardening)
     # large kinematics: the eigenvectors of a trial Ce with nearly repeated eigenvalues (relative gap g, here ~ the elastic
     # strain differences, i.e. ~ the yield strain) are accurate to ~eps/g only (conditioning of the eigenvectors; documented
     # for the library's tensor functions as error ~ eps/gap); through them the whole log strain, including its volumetric
